@@ -358,7 +358,8 @@ func TestC13(t *testing.T) {
 	defer r.Finish()
 	maxLen := r.N(6, 8)
 	r.Extra("rule", fmt.Sprintf("part 1 (exhaustive): every string over {a, TAB, é, €, 😀, LF, CR, SP} up to length %d, wrapped four ways so that it "+
-		"lexes (block comment, line comment, string literal followed by a token, bare followed by a token; thorough: length-8 strings in the block comment only); part 2: corpus files verbatim "+
+		"lexes (block comment, line comment, string literal followed by a token, bare followed by a token; thorough: length-8 strings in the block comment only); part 1b: every string-literal body over "+
+		"{a, backslash, double quote, LF, CR, TAB, é, x} up to length 5 (thorough 6) in double and single quotes, followed by tokens on the same and the next line; part 2: corpus files verbatim "+
 		"and re-rendered with tab/CR/FF/VT/multi-byte rich trivia, generator files, byte mutants (error positions). For each text every item "+
 		"(token/comment) Start, every AST node Start/End, every error position and FileInfo.SourcePos at every character boundary of the "+
 		"lexed part is compared with the byte-scan reference; evaluation = one text; non-trivial = text with a tab, CR, LF or multi-byte character", maxLen))
@@ -444,6 +445,67 @@ func TestC13(t *testing.T) {
 		r.ClassN("positions-compared", positions)
 	})
 	r.Sample("exhaustive", map[string]any{"example": wrappers[0].wrap("a\té€\r\n😀 "), "wrappers": []string{"/*S*/x", "//S\\nx", "x = \"S\" y", "Sx"}})
+
+	// ---- part 1b: exhaustive string-literal bodies with escapes (a backslash before a line end, quotes, ...)
+	alphaEsc := []string{"a", "\\", "\"", "\n", "\r", "\t", "é", "x"}
+	maxEsc := r.N(5, 6)
+	powE := []int{1}
+	for i := 1; i <= maxEsc; i++ {
+		powE = append(powE, powE[i-1]*len(alphaEsc))
+	}
+	totalE := 0
+	for L := 0; L <= maxEsc; L++ {
+		totalE += powE[L]
+	}
+	decodeE := func(idx int) string {
+		L := 0
+		for idx >= powE[L] {
+			idx -= powE[L]
+			L++
+		}
+		var sb strings.Builder
+		for k := 0; k < L; k++ {
+			sb.WriteString(alphaEsc[idx%len(alphaEsc)])
+			idx /= len(alphaEsc)
+		}
+		return sb.String()
+	}
+	escWrappers := []struct {
+		name string
+		wrap func(s string) string
+	}{
+		{"dq", func(s string) string { return "x = \"" + s + "\" y\n z" }},
+		{"sq", func(s string) string { return "x = '" + s + "' y\n z" }},
+	}
+	nChunksE := (totalE + chunk - 1) / chunk
+	r.Par(nChunksE, func(c int) {
+		cid := fmt.Sprintf("esc/c%d", c)
+		if !r.Want(cid) {
+			return
+		}
+		var evals, nontrivial, positions int64
+		for idx := c * chunk; idx < (c+1)*chunk && idx < totalE; idx++ {
+			s := decodeE(idx)
+			for _, w := range escWrappers {
+				id := fmt.Sprintf("%s/%d/%s", cid, idx, w.name)
+				if r.Replaying() && !r.Want(id) {
+					continue
+				}
+				n, _, obs := checkPositions13(r, id, []byte(w.wrap(s)), false)
+				if !obs {
+					continue
+				}
+				evals++
+				positions += int64(n)
+				if strings.ContainsAny(s, "\t\n\r\\") {
+					nontrivial++
+				}
+			}
+		}
+		r.EvalN(evals, nontrivial)
+		r.ClassN("exhaustive.string-bodies-with-escapes", evals)
+		r.ClassN("positions-compared", positions)
+	})
 
 	// ---- part 2: rich texts
 	cases := textCases(r, "C13", r.N(500, 8000), r.N(400, 8000), r.N(800, 16000))
